@@ -1,6 +1,10 @@
 """C15 — perf slice; see driver/perf.py and Props/C15.v"""
 import perf
+from common import tie_by_translation
 
 
 def run(res, tier, seed, replay):
+    # the second tie (DESIGN 8.8): CalculationAlgos::maxdd translated from the source text of this run and proved equal
+    # to Model/Perf.v's maxdd (repaired valuation) for every Num F; never an alarm by itself, the correspondence decides
+    tie_by_translation(res, "perf", "GenEquivPerf")
     return perf.run_property(res, "C15", tier, seed, replay, ["C15", "C15float"])
